@@ -451,6 +451,8 @@ def generic_replay_check(pid, tier, progs, proj, what, rule, ctors=(0,), clone_p
         # keep the number of recorded runs (each validated three times by TLC) bounded
         rand_runs = 60 if tier == "quick" else max(20, min(400, 40000 // max(1, len(progs))))
     out = Outcome(pid)
+    # unusual but legal ways of writing the same definitions (families.add_quirks)
+    progs = F.add_quirks(progs, seed)
     byid = {p.id: p for p in progs}
     fr = replay_family(pid, progs, ctors=ctors, clone_points=clone_points,
                        workers=workers or (8 if tier == "quick" else 14),
@@ -485,7 +487,10 @@ def generic_replay_check(pid, tier, progs, proj, what, rule, ctors=(0,), clone_p
     return out
 
 
-INPUTS_RULE = ("inputs: every string of length <= k over the program's alphabet (letters used by "
+INPUTS_RULE = ("about 60% of the definitions are rewritten by families.add_quirks (a rule written twice, a "
+               "shadowed rule, unused lets, a let used only as right context, a never-entered rule set, "
+               "descending / overlapping bracket-set members, redundant parentheses); "
+               "inputs: every string of length <= k over the program's alphabet (letters used by "
                "the rules plus one foreign letter); TLC enumerates every behaviour of RefLexer.tla "
                "(every decision history the rules' menus allow), each expected trace is replayed "
                "into the real generated lexer; ")
@@ -2477,6 +2482,7 @@ def check_C02(tier, seed):
     big += F.random_general(seed + 9, sizes(tier, 60, 400), 250000, k=3, nsets=(1, 1, 2), nrules=(1, 2, 3),
                             depth=3, p_var=0.2, menu_sizes=(1,), letters=(97, 233, 28450),
                             sigma=(97, 233, 28450, 128512))
+    big = F.add_quirks(big, seed)
     classes = class_family(seed, sizes(tier, 120, 600), 300000)
     # two rules whose leading ranges overlap in every possible way (the subset construction
     # merges their range transitions; the later rule must not disturb the earlier one)
